@@ -33,7 +33,39 @@ def both(*fs):
     return f
 
 C, PY, PB, PL, SC = ('lib/check/msgformat/c.py', 'lib/check/msgformat/python.py', 'lib/check/msgformat/pybrace.py', 'lib/check/msgformat/perlbrace.py', 'lib/strformat/c.py')
+TG = 'lib/tags.py'
 TIES = {
+ 'tagsfmt': {
+  'translators': ['tagsfmt'], 'module': 'I18n.Props.C02Tie', 'tests': ['tests/test_tags.py'],
+  'edits': {
+   'esc-safestr-check-dropped': ed(TG, ("    if isinstance(s, safestr):\n        return s\n", "")),
+   'esc-empty-literal': ed(TG, ("return '(empty string)'", "return '(empty)'")),
+   'esc-bytes-keep-b': ed(TG, ("return repr(s)[1:]", "return repr(s)")),
+   'esc-safe-word-quoted': ed(TG, ("    elif _is_safe(s):\n        return s\n", "    elif _is_safe(s):\n        return repr(s)\n")),
+   'esc-empty-test-dropped': ed(TG, ("    if s == '':\n        return '(empty string)'\n    elif _is_safe(s):", "    if _is_safe(s):")),
+   'esc-is-safe-pattern': ed(TG, ("[A-Za-z0-9_.!<>=-]+", "[A-Za-z0-9_.!<>= -]+")),
+   'prio-minor-possible': ed(TG, ("S.minor: 'IW'[c >= C.certain],", "S.minor: 'IW'[c >= C.possible],")),
+   'prio-important-letters': ed(TG, ("S.important: 'WE'[c >= C.possible],", "S.important: 'EW'[c >= C.possible],")),
+   'prio-gt': ed(TG, ("S.normal: 'IW'[c >= C.possible],", "S.normal: 'IW'[c > C.possible],")),
+   'prio-serious-missing': ed(TG, ("            S.serious: 'E',\n", "")),
+   'fmt-comma-separated': ed(TG, ("s += ' ' + str.join(' ', map(_escape, extra))", "s += ' ' + str.join(', ', map(_escape, extra))")),
+   'fmt-colour-order': ed(TG, ("{color_on}{self.name}{color_off}", "{color_off}{self.name}{color_on}")),
+   'fmt-extra-unescaped': ed(TG, ("map(_escape, extra)", "map(str, extra)")),
+   'fmt-target-after-name': ed(TG, ("{target}: {color_on}{self.name}{color_off}", "{color_on}{self.name}{color_off}: {target}")),
+   'sf-args-unescaped': ed(TG, ("args = [_escape(s) for s in args]", "args = [str(s) for s in args]")),
+   'sf-kwargs-unescaped': ed(TG, ("kwargs = {k: _escape(v) for k, v in kwargs.items()}", "kwargs = {k: str(v) for k, v in kwargs.items()}")),
+   'seeded/C02-c': seeded('C02-c'),
+   # behaviour-preserving
+   'bp-rename': ed(TG, ("def _escape(s):\n    if isinstance(s, safestr):\n        return s\n    if isinstance(s, bytes):\n        return repr(s)[1:]\n    s = str(s)\n    if s == '':\n        return '(empty string)'\n    elif _is_safe(s):\n        return s\n    else:\n        return repr(s)",
+                            "def _escape(value):\n    if isinstance(value, safestr):\n        return value\n    if isinstance(value, bytes):\n        return repr(value)[1:]\n    text = str(value)\n    if text == '':\n        return '(empty string)'\n    elif _is_safe(text):\n        return text\n    else:\n        return repr(text)"),
+                       ("        s = self.severity\n        S = severities\n        c = self.certainty\n        C = certainties", "        sev = self.severity\n        S = severities\n        cert = self.certainty\n        C = certainties"),
+                       ("S.minor: 'IW'[c >= C.certain],\n            S.normal: 'IW'[c >= C.possible],\n            S.important: 'WE'[c >= C.possible],\n            S.serious: 'E',\n        }[s]", "S.minor: 'IW'[cert >= C.certain],\n            S.normal: 'IW'[cert >= C.possible],\n            S.important: 'WE'[cert >= C.possible],\n            S.serious: 'E',\n        }[sev]")),
+   'bp-dict-order': ed(TG, ("            S.pedantic: 'P',\n            S.wishlist: 'I',\n", "            S.wishlist: 'I',\n            S.pedantic: 'P',\n")),
+   'bp-nested-if': ed(TG, ("    if s == '':\n        return '(empty string)'\n    elif _is_safe(s):\n        return s\n    else:\n        return repr(s)", "    if s == '':\n        return '(empty string)'\n    if _is_safe(s):\n        return s\n    return repr(s)")),
+   'bp-temp-priority': ed(TG, ("        s = f'{self.get_priority()}: {target}: {color_on}{self.name}{color_off}'", "        letter = self.get_priority()\n        # the line:\n        s = f'{letter}: {target}: {color_on}{self.name}{color_off}'")),
+   'bp-comments-docstrings': ed(TG, ("def safe_format(template, *args, **kwargs):\n", "def safe_format(template, *args, **kwargs):\n    '''format with escaped arguments'''\n    # positional, then keyword arguments\n")),
+   'bp-not-empty-form': ed(TG, ("    if s == '':\n        return '(empty string)'", "    if not s:\n        return '(empty string)'")),
+  }},
  'fmtargs': {
   'translators': ['fmtargs'], 'module': 'I18n.Props.C14Tie', 'tests': ['tests/test_strformat_c.py'],
   'edits': {
